@@ -297,6 +297,10 @@ def _shard_main(check_factory, binaries, seed, tier, indices, conn):
                 break
             out["runs"] += 1
             out["jobs"] += outcome.get("jobs", 0)
+            if len(out["violations"]) >= 12:
+                # the tree is broken for this property; the verdict is settled, do not burn hours on a flood
+                out["counters"]["shards_stopped_early_after_12_violations"] = 1
+                break
             for violation in outcome.get("violations", []):
                 violation["run_index"] = index
                 if len(out["violations"]) < 40:
